@@ -135,6 +135,13 @@ func suspectOps(n gen.NetSpec) string {
 			switch op {
 			case "addp", "multp", "divp":
 				set[op] = true
+			default:
+				// the dynamically created two-phase arithmetic families (fixed point, fxp, linear quantizer)
+				for _, pre := range []string{"addfps", "multfps", "divfps", "addfxps", "multfxps", "divfxps", "addlqs", "multlqs", "divlqs"} {
+					if strings.HasPrefix(op, pre) {
+						set[pre] = true
+					}
+				}
 			}
 		}
 	}
@@ -180,6 +187,15 @@ func machines(seed int64, nRandom int) []gen.NetSpec {
 	for k := 2; k <= 4; k++ {
 		for _, op := range []string{"addp", "multp", "divp"} {
 			n := gen.Chain(k, 8, []string{"rset r1 3", op + " r0 r1", op + " r0 r1"}, 0, 0)
+			n.Family = fmt.Sprintf("chain%d-%s", k, op)
+			ms = append(ms, n)
+		}
+	}
+	// the same for the dynamically created two-phase arithmetic families (what neuralbond-generated
+	// machines execute on every processor)
+	for k := 2; k <= 3; k++ {
+		for _, op := range []string{"addfps16f8", "multfps16f8", "divfps16f8", "addfxps16f8", "multfxps16f8", "divfxps16f8", "addlqs16t1", "multlqs16t1", "divlqs16t1"} {
+			n := gen.Chain(k, 16, []string{"rset r1 3", op + " r0 r1", op + " r0 r1"}, 0, 0)
 			n.Family = fmt.Sprintf("chain%d-%s", k, op)
 			ms = append(ms, n)
 		}
@@ -461,6 +477,10 @@ func main() {
 	run.Floor = 20
 	scratch, clean := hx.Scratch("c09")
 	defer clean()
+	// the linear quantizer opcodes need a registered data range (index 1)
+	if err := gen.EnableLinearQuantizer(scratch); err != nil {
+		fmt.Fprintln(os.Stderr, "lq ranges:", err)
+	}
 	if child {
 		// evidence of the race build goes to the scratch dir given by the parent
 		evid.EvidenceDir = os.Getenv("VERIF_CHILD_EVIDENCE")
